@@ -17,8 +17,9 @@ func init() {
 			"(R2) the fixed-width meta codec allocates and guards exactly the bytes it indexes; " +
 			"(R3) writer and reader layout tables agree: (field, byte index, shift) triples of GenCodeMarshal and GenCodeUnmarshal, the flag bytes, the section sequence of Base.MarshalRecord and Wrapper.MarshalRecord, the version constant written and accepted, and the 'no data for deleted records' predicate on writer and reader side (decision tables over Deleted in {<0, 0, >0}); " +
 			"(R5) varint.GetNextBlock, which extracts the meta block, bounds the decoded length in the unsigned domain with the prefix accounted for (same rule as C10-R4); (R4) the data-format identifier is written with the codec the reader uses (varint.Pack8 / Unpack8). " +
+			"(R6) every constant-bound index/slice in the repo functions statically reachable from the record parsers is dominated by a length test implying the bound. " +
 			"NOT decided: round-trip equality for all records, totality of the third-party codecs.",
-		Rules: []ruleFn{c08R1, c08R2, c08R3, c08R4, func(c *Ctx, r *Report) { blockReaderRule(c, r, "C08-R5") }},
+		Rules: []ruleFn{c08R1, c08R2, c08R3, c08R4, func(c *Ctx, r *Report) { blockReaderRule(c, r, "C08-R5") }, c08R6},
 	})
 }
 
@@ -560,4 +561,11 @@ func c08R4(c *Ctx, r *Report) {
 		}
 		r.Check(ok, rule, fnKey(u)+" / loads data with its own format", "LoadAsFormat(wrapper.Data, wrapper.Format, r)", "Unwrap does not load the wrapper's data with the wrapper's format")
 	}
+}
+
+func c08R6(c *Ctx, r *Report) {
+	const rule = "C08-R6"
+	r.SetFloor(rule, 1)
+	boundsRule(c, r, rule, "parsing an arbitrary byte string as a stored record",
+		"database/record.NewRawWrapper", "database/record.NewWrapper", "database/record.Unwrap")
 }
